@@ -23,6 +23,15 @@ use crate::tokinizer::{TokenInfo};
 
 pub fn small_date(config: &SmartCalcConfig, _: &Tokinizer, fields: &BTreeMap<String, Rc<TokenInfo>>) -> core::result::Result<TokenType, String> {
     if (fields.contains_key("day")) && fields.contains_key("month") {
+        /* Day, month and year are positive whole numbers */
+        for name in ["day", "month", "year"] {
+            if let Some(number) = get_number(name, fields) {
+                if number.fract() != 0.0 || number < 1.0 {
+                    return Err("Date is not valid".to_string());
+                }
+            }
+        }
+
         let day = match get_number("day", fields) {
             Some(number) => number,
             _ => return Err("Number information not valid".to_string())
